@@ -17,6 +17,8 @@
 (*   Restart         headSync.Close + new component: FillDiff from the head storage                 *)
 (*   RoundBegin      diffSyncer.Sync: GetResponsiblePeers, AcquireDrpcConn of the first peer        *)
 (*   RoundCheck      remote.DiffTypeCheck: HeadSync request for the top range, hash comparison      *)
+(*   RoundPush       onDiffError: the peer answered ErrSpaceMissing -> SpacePush (acl root + settings  *)
+(*                   root only), then the exchange starts again on the same connection                *)
 (*   RoundDiff       ldiff.Diff through NewRemoteDiff / HandleRangeRequest                          *)
 (*   RoundApply      applyDiff: deletionState.Filter, acl / key-value routing, TreeSyncer.SyncAll   *)
 (*   TreeSync        one (peer, object) job of the tree syncer (outside the repository; abstract)   *)
@@ -33,6 +35,7 @@ CONSTANTS Peers,        \* peer ids
           Kv,           \* {} or {key-value store id}
           Changes,      \* changes an object can contain beyond its root
           MaxPend,      \* bound of the headUpdater queue (bounds the model only)
+          NoSpace,      \* peers that do not hold the space at the start (they get it by SpacePush)
           Budget,       \* [cr, ed, de, fl, rs |-> Nat]: creations, edits, deleted ids, offline flips, restarts
           Dev           \* deviations switched on (sensitivity runs only; {} = what the code does):
                         \*   "NoExistsCheck"  UpdateHeads does not consult the deletion state
@@ -51,11 +54,12 @@ VARIABLES store,    \* [Peers -> [Ids -> [has, hd, del]]]  head storage entry (+
           phash,    \* [Peers -> index contents]  what the persisted space hash was computed from
           pend,     \* [Peers -> Seq(update)]  headUpdater queue: resulting entries not yet applied to idx
           online,   \* [Peers -> BOOLEAN]
+          space,    \* [Peers -> BOOLEAN]  the peer holds (has opened) the space
           rnd,      \* [Peers -> round record]  the Sync call in progress (one per peer)
           tasks,    \* set of [f, t, i, k]: jobs handed to the tree syncer / acl / key-value syncers
           budget,   \* remaining environment budget
           clean     \* [Peers -> {"no","run"}] history: the current / last round of p ran without disturbance
-vars == <<store, idx, phash, pend, online, rnd, tasks, budget, clean>>
+vars == <<store, idx, phash, pend, online, space, rnd, tasks, budget, clean>>
 
 Tomb(p, i)  == store[p][i].del # "none"
 TombSet(p)  == {i \in Ids : Tomb(p, i)}
@@ -95,8 +99,9 @@ Quiet      == Drained /\ tasks = {} /\ AllIdle /\ \A p \in Peers : online[p]
 Disturb    == clean' = [p \in Peers |-> "no"]
 
 Init ==
-    /\ store  = [p \in Peers |-> [i \in Ids |-> [has |-> i \in Special, hd |-> {}, del |-> "none"]]]
+    /\ store  = [p \in Peers |-> [i \in Ids |-> [has |-> i \in Special /\ p \notin NoSpace, hd |-> {}, del |-> "none"]]]
     /\ idx    = [p \in Peers |-> Fill(p)]
+    /\ space  = [p \in Peers |-> p \notin NoSpace]
     /\ phash  = idx
     /\ pend   = [p \in Peers |-> <<>>]
     /\ online = [p \in Peers |-> TRUE]
@@ -107,6 +112,7 @@ Init ==
 
 (* ------------------------------ store writes ------------------------------ *)
 Write(p, i, new) ==
+    /\ space[p]
     /\ Len(pend[p]) < MaxPend
     /\ store' = [store EXCEPT ![p][i] = new]
     /\ pend'  = Enq(pend, p, i, store[p][i], new)
@@ -117,7 +123,7 @@ Create(p, i) ==
     /\ ~store[p][i].has /\ ~Tomb(p, i)
     /\ Write(p, i, [has |-> TRUE, hd |-> {}, del |-> "none"])
     /\ budget' = [budget EXCEPT !.cr = @ - 1]
-    /\ Disturb /\ UNCHANGED <<idx, phash, online, rnd, tasks>>
+    /\ Disturb /\ UNCHANGED <<idx, phash, online, space, rnd, tasks>>
 
 \* a local change (tree AddContent, acl record, key-value Set): new heads
 Edit(p, i, c) ==
@@ -125,7 +131,7 @@ Edit(p, i, c) ==
     /\ Live(p, i) /\ c \notin store[p][i].hd
     /\ Write(p, i, [store[p][i] EXCEPT !.hd = @ \cup {c}])
     /\ budget' = [budget EXCEPT !.ed = @ - 1]
-    /\ Disturb /\ UNCHANGED <<idx, phash, online, rnd, tasks>>
+    /\ Disturb /\ UNCHANGED <<idx, phash, online, space, rnd, tasks>>
 
 \* deletionState.Add (the settings object learned the deletion): status Queued, also for an unknown id
 DeletedIds == {i \in Ids : \E p \in Peers : Tomb(p, i)}
@@ -133,13 +139,13 @@ Delete(p, i) ==
     /\ i \in Trees /\ ~Tomb(p, i)
     /\ i \in DeletedIds \/ Cardinality(DeletedIds) < budget.de
     /\ Write(p, i, [store[p][i] EXCEPT !.del = "queued"])
-    /\ Disturb /\ UNCHANGED <<idx, phash, online, rnd, tasks, budget>>
+    /\ Disturb /\ UNCHANGED <<idx, phash, online, space, rnd, tasks, budget>>
 
 \* the deleter removed the tree storage: deletionState.Delete, status Deleted
 DeleteFinish(p, i) ==
     /\ store[p][i].del = "queued"
     /\ Write(p, i, [store[p][i] EXCEPT !.del = "deleted", !.has = FALSE])
-    /\ Disturb /\ UNCHANGED <<idx, phash, online, rnd, tasks, budget>>
+    /\ Disturb /\ UNCHANGED <<idx, phash, online, space, rnd, tasks, budget>>
 
 (* ------------------------------ the index ------------------------------ *)
 \* DiffManager.UpdateHeads on the oldest queued entry (the entry is the one that resulted from the write;
@@ -153,24 +159,24 @@ IndexApply(p) ==
     /\ idx'   = [idx EXCEPT ![p] = ApplyTo(@, p, Head(pend[p]))]
     /\ phash' = [phash EXCEPT ![p] = idx'[p]]      \* SetHash in the same call (skipped when nothing changes)
     /\ pend'  = [pend EXCEPT ![p] = Tail(@)]
-    /\ UNCHANGED <<store, online, rnd, tasks, budget, clean>>
+    /\ UNCHANGED <<store, online, space, rnd, tasks, budget, clean>>
 
 \* the space is closed and opened again: the queue and the tree syncer's jobs are gone, FillDiff
 Restart(p) ==
-    /\ budget.rs > 0 /\ rnd[p].st = "idle"
+    /\ budget.rs > 0 /\ rnd[p].st = "idle" /\ space[p]
     /\ idx'   = [idx EXCEPT ![p] = Fill(p)]
     /\ phash' = [phash EXCEPT ![p] = Fill(p)]
     /\ pend'  = [pend EXCEPT ![p] = <<>>]
     /\ tasks' = {t \in tasks : t.f # p}
     /\ budget' = [budget EXCEPT !.rs = @ - 1]
-    /\ Disturb /\ UNCHANGED <<store, online, rnd>>
+    /\ Disturb /\ UNCHANGED <<store, online, space, rnd>>
 
 (* ------------------------------ the round ------------------------------ *)
 RoundBegin(p) ==
-    /\ rnd[p].st = "idle"
+    /\ rnd[p].st = "idle" /\ space[p]
     /\ rnd' = [rnd EXCEPT ![p] = Advance(PeerSeq[p], online)]
     /\ clean' = [q \in Peers |-> IF q = p /\ Quiet THEN "run" ELSE "no"]
-    /\ UNCHANGED <<store, idx, phash, pend, online, tasks, budget>>
+    /\ UNCHANGED <<store, idx, phash, pend, online, space, tasks, budget>>
 
 \* DiffTypeCheck: one HeadSync request (top range); equal hashes end the exchange
 RoundCheck(p) ==
@@ -178,9 +184,25 @@ RoundCheck(p) ==
     /\ LET q == rnd[p].cur IN
          rnd' = [rnd EXCEPT ![p] =
                    IF ~online[q] THEN Advance(@.todo, online)                    \* request failed: next peer
+                   ELSE IF ~space[q] THEN [@ EXCEPT !.st = "push"]                \* ErrSpaceMissing
                    ELSE IF idx[p] = idx[q] THEN [@ EXCEPT !.st = "apply", !.nreq = 1]
                    ELSE [@ EXCEPT !.st = "diff", !.nreq = 1]]
-    /\ UNCHANGED <<store, idx, phash, pend, online, tasks, budget, clean>>
+    /\ UNCHANGED <<store, idx, phash, pend, online, space, tasks, budget, clean>>
+
+\* onDiffError: SpacePush registers the space on the peer with the acl root and the settings root only, then
+\* one more TryDiff on the same connection (whose failure ends the exchange like any other)
+RoundPush(p) ==
+    /\ rnd[p].st = "push"
+    /\ LET q == rnd[p].cur IN
+         IF ~online[q]
+           THEN /\ rnd' = [rnd EXCEPT ![p] = Advance(@.todo, online)]
+                /\ UNCHANGED <<store, idx, phash, space>>
+           ELSE /\ rnd' = [rnd EXCEPT ![p] = [@ EXCEPT !.st = "check"]]
+                /\ space' = [space EXCEPT ![q] = TRUE]
+                /\ store' = [store EXCEPT ![q] = [i \in Ids |-> [has |-> i \in Special, hd |-> {}, del |-> "none"]]]
+                /\ idx'   = [idx EXCEPT ![q] = [i \in Ids |-> ViewE(store'[q][i], i)]]
+                /\ phash' = [phash EXCEPT ![q] = idx'[q]]
+    /\ UNCHANGED <<pend, online, tasks, budget, clean>>
 
 \* ldiff.Diff against the remote index (both indexes are read when the request is answered)
 RoundDiff(p) ==
@@ -190,7 +212,7 @@ RoundDiff(p) ==
                    IF ~online[q] THEN Advance(@.todo, online)
                    ELSE [@ EXCEPT !.st = "apply", !.nreq = 2,
                                   !.new = DNew(idx[p], idx[q]), !.chg = DChg(idx[p], idx[q]), !.rem = DRem(idx[p], idx[q])]]
-    /\ UNCHANGED <<store, idx, phash, pend, online, tasks, budget, clean>>
+    /\ UNCHANGED <<store, idx, phash, pend, online, space, tasks, budget, clean>>
 
 \* applyDiff: what is handed to the tree syncer (deletion state consulted now)
 ApplyMissing(p)  == IF "NoFilter" \in Dev THEN rnd[p].new ELSE rnd[p].new \ TombSet(p)
@@ -205,11 +227,11 @@ RoundApply(p) ==
     /\ rnd[p].st = "apply"
     /\ tasks' = tasks \cup Jobs(p)
     /\ rnd' = [rnd EXCEPT ![p] = Advance(@.todo, online)]
-    /\ UNCHANGED <<store, idx, phash, pend, online, budget, clean>>
+    /\ UNCHANGED <<store, idx, phash, pend, online, space, budget, clean>>
 
 \* one job of the tree syncer (C01: afterwards both hold the join; C15: never for a tombstoned object;
 \* a job towards an offline peer is lost)
-NoEffect(p, q, i) == \/ ~online[q] \/ Tomb(p, i) \/ Tomb(q, i)
+NoEffect(p, q, i) == \/ ~online[q] \/ ~space[q] \/ Tomb(p, i) \/ Tomb(q, i)
                      \/ (~store[p][i].has /\ ~store[q][i].has)
 Joined(p, q, i) == [has |-> TRUE, del |-> "none",
                     hd |-> (IF store[p][i].has THEN store[p][i].hd ELSE {}) \cup
@@ -225,23 +247,23 @@ TreeSync(t) ==
                 /\ store' = [store EXCEPT ![p][i] = Joined(p, q, i), ![q][i] = Joined(p, q, i)]
                 /\ pend'  = Enq(Enq(pend, p, i, store[p][i], Joined(p, q, i)), q, i, store[q][i], Joined(p, q, i))
                 /\ clean' = clean
-    /\ UNCHANGED <<idx, phash, online, rnd, budget>>
+    /\ UNCHANGED <<idx, phash, online, space, rnd, budget>>
 
 Flip(q) ==
     /\ budget.fl > 0
     /\ online' = [online EXCEPT ![q] = ~@]
     /\ budget' = [budget EXCEPT !.fl = @ - 1]
-    /\ Disturb /\ UNCHANGED <<store, idx, phash, pend, rnd, tasks>>
+    /\ Disturb /\ UNCHANGED <<store, idx, phash, pend, space, rnd, tasks>>
 
 EnvNext == \E p \in Peers :
               \/ \E i \in Ids : Create(p, i) \/ Delete(p, i) \/ DeleteFinish(p, i) \/ \E c \in Changes : Edit(p, i, c)
               \/ Restart(p) \/ Flip(p)
-SysNext == \/ \E p \in Peers : IndexApply(p) \/ RoundBegin(p) \/ RoundCheck(p) \/ RoundDiff(p) \/ RoundApply(p)
+SysNext == \/ \E p \in Peers : IndexApply(p) \/ RoundBegin(p) \/ RoundCheck(p) \/ RoundPush(p) \/ RoundDiff(p) \/ RoundApply(p)
            \/ \E t \in tasks : TreeSync(t)
 Next == EnvNext \/ SysNext
 
 Fairness == /\ \A p \in Peers : /\ WF_vars(IndexApply(p)) /\ WF_vars(RoundBegin(p)) /\ WF_vars(RoundCheck(p))
-                                /\ WF_vars(RoundDiff(p)) /\ WF_vars(RoundApply(p))
+                                /\ WF_vars(RoundDiff(p)) /\ WF_vars(RoundApply(p)) /\ WF_vars(RoundPush(p))
             /\ WF_vars(\E t \in tasks : TreeSync(t))
 Spec     == Init /\ [][Next]_vars
 LiveSpec == Spec /\ Fairness
@@ -252,7 +274,8 @@ TypeOK ==
     /\ \A p \in Peers, i \in Ids : store[p][i].hd \subseteq Changes /\ store[p][i].del \in DelSt
     /\ \A p \in Peers, i \in Ids : idx[p][i] \in HeadVals
     /\ \A p \in Peers : Len(pend[p]) <= MaxPend
-    /\ \A p \in Peers : rnd[p].st \in {"idle", "check", "diff", "apply"}
+    /\ \A p \in Peers : rnd[p].st \in {"idle", "check", "push", "diff", "apply"}
+    /\ \A p \in Peers : ~space[p] => (rnd[p].st = "idle" /\ pend[p] = <<>> /\ \A i \in Ids : ~store[p][i].has /\ idx[p][i] = Absent)
 
 \* NoLostUpdate (safety half): once the queue is drained the index shows exactly the stored live heads -
 \* no write is lost on its way to the index, whatever was going on when it was made
@@ -274,10 +297,15 @@ NoSpecialToTreeSyncer == \A t \in tasks : t.k \in {"missing", "existing"} => t.i
 
 \* EqualHashMeansNoTraffic: equal indexes end the exchange after the top-hash request with empty lists
 EqualHashMeansNoTraffic ==
-    [][\A p \in Peers : (rnd[p].st = "check" /\ rnd'[p].st # "check" /\ online[rnd[p].cur] /\ idx[p] = idx[rnd[p].cur])
+    [][\A p \in Peers : (rnd[p].st = "check" /\ rnd'[p].st # "check" /\ online[rnd[p].cur] /\ space[rnd[p].cur] /\ idx[p] = idx[rnd[p].cur])
           => /\ rnd'[p].st = "apply" /\ rnd'[p].nreq = 1
              /\ rnd'[p].new = {} /\ rnd'[p].chg = {} /\ rnd'[p].rem = {}]_vars
 NoJobsWithoutDiff == \A p \in Peers : (rnd[p].st = "apply" /\ rnd[p].nreq = 1) => Jobs(p) = {}
+
+\* FailureIsolated: whatever happens with one responsible peer (failed request, finished exchange), Sync turns
+\* to the next responsible peer that is online
+FailureIsolated == [][\A p \in Peers : (rnd[p].st \in {"check", "push", "diff", "apply"} /\ rnd'[p].cur # rnd[p].cur)
+                          => rnd'[p] = Advance(rnd[p].todo, online)]_vars
 
 \* Converged: equal index entries for every id that is tombstoned on neither side
 Converged(p, q) == \A i \in Ids : (~Tomb(p, i) /\ ~Tomb(q, i)) => idx[p][i] = idx[q][i]
@@ -291,6 +319,9 @@ CleanRoundConverges ==
 
 \* liveness: when the environment is done and everybody stays online, repeated rounds converge (this is the
 \* other half of NoLostUpdate: a change made during a round is picked up by a later round)
+\* SpacePushed: a peer asked by a round holds the space afterwards (unless it went offline)
+PushGivesSpace == [][\A p \in Peers : (rnd[p].st = "push" /\ rnd'[p].st # "push" /\ online[rnd[p].cur])
+                         => (space'[rnd[p].cur] /\ rnd'[p].st = "check" /\ rnd'[p].cur = rnd[p].cur)]_vars
 AllOnline == \A p \in Peers : online[p]
 EventuallyConverged == (<>[]AllOnline) => <>[](AllConverged /\ Drained)
 =============================================================================
